@@ -123,12 +123,18 @@ def _variant_ctor(facts, path):
     return None
 
 
+class Steps(list):
+    """(callee, bb) looked through by a trace; .locals = every local the value passed through."""
+    locals = frozenset()
+
+
 def trace(fn, start, through=(), max_nodes=4000):
     """Origins of the value `start` (operand dict, place dict or (local, proj)), looking through moves, references,
     aggregates (field- and variant-sensitively), `?`, Ok-preserving adaptors and the callees in `through`
-    (value-preserving views of their first argument).  Returns (origins, steps) — steps are the (callee, bb) looked through."""
+    (value-preserving views of their first argument).  Returns (origins, steps) — steps are the (callee, bb) looked
+    through, steps.locals the locals the value passed through (see mut_borrows)."""
     rxs = [re.compile(p) for p in through]
-    origins, okeys, steps = [], set(), []
+    origins, okeys, steps = [], set(), Steps()
     seen, work = set(), []
     defs = fn.defs()
 
@@ -265,7 +271,20 @@ def trace(fn, start, through=(), max_nodes=4000):
                 add("call", bb, node, rest)
             elif kind == "yield":
                 add("resume", bb, node, p)
+    steps.locals = frozenset(l for l, _p in seen)
     return origins, steps
+
+
+def mut_borrows(fn, locals_):
+    """Blocks that take `&mut` / a raw mutable pointer of one of the locals: the only way a value can change between its
+    origin and its use without a MIR assignment that the trace would have seen."""
+    out = []
+    reach = fn.reachable(0)
+    for bb, i, st in fn.stmts():
+        rv = st["rv"]
+        if bb in reach and rv["rv"] in ("ref", "rawptr") and rv.get("mut", rv["rv"] == "rawptr") and rv["pl"]["l"] in locals_:
+            out.append(bb)
+    return out
 
 
 def describe(origins):
@@ -305,6 +324,9 @@ class Feas:
         fn.succ(0)
         self._sw = {}
         self._cache = {}
+        # a local whose address is taken mutably can change variant behind our back (Option::take, mem::replace): no facts
+        self._untracked = set(st["rv"]["pl"]["l"] for bb, i, st in fn.stmts()
+                              if st["rv"]["rv"] in ("ref", "rawptr") and st["rv"].get("mut", st["rv"]["rv"] == "rawptr"))
 
     def _switch(self, bb):
         if bb not in self._sw:
@@ -337,7 +359,7 @@ class Feas:
                     new = rv["variant"]
             elif rv["rv"] == "use" and rv["op"].get("k") in ("copy", "move") and not rv["op"]["pl"]["p"]:
                 new = facts.get(rv["op"]["pl"]["l"])
-            if new is not None:
+            if new is not None and l not in self._untracked:
                 facts[l] = new
             else:
                 facts.pop(l, None)
@@ -360,7 +382,7 @@ class Feas:
                 new = v0 if v0 in ("Err", "None") else None
             elif MAP_ERR.search(callee) or ERR_PRESERVING.search(callee) or OK_PRESERVING.search(callee) or MAP_OK.search(callee):
                 new = v0
-            if new is not None:
+            if new is not None and d not in self._untracked:
                 facts[d] = new
             else:
                 facts.pop(d, None)
@@ -406,7 +428,7 @@ class Feas:
                         outs.append((s, facts))
                     else:
                         f2 = facts
-                        if len(vs) == 1 and vs[0] is not None:
+                        if len(vs) == 1 and vs[0] is not None and l not in self._untracked:
                             f2 = dict(facts)
                             f2[l] = vs[0]
                         outs.append((s, f2))
@@ -470,7 +492,7 @@ class Feas:
                     if known is not None and known in names.values():
                         if known not in vs:
                             continue
-                    elif len(vs) == 1 and vs[0] is not None:
+                    elif len(vs) == 1 and vs[0] is not None and l not in self._untracked:
                         f2 = dict(facts)
                         f2[l] = vs[0]
                 work.append((s, tuple(sorted(f2.items())), flag or (bb, s) == (src, dst)))
